@@ -199,7 +199,8 @@ def run_case(ctx, case):
     mon = Lockstep(ctx, case)
     eng = LockstepEngine(ctx, case, [mon])
     eng.run()
-    ctx.case({k: case[k] for k in ("worklist", "worktable", "n_ops", "opseed")}, mon.trough_rec and mon.plate_rec)
+    c2 = {k: case[k] for k in ("worklist", "worktable", "n_ops", "opseed")}
+    ctx.case(c2, mon.trough_rec and mon.plate_rec, sample=dict(c2, executed_operations_tail=eng.tail(4)))
 
 
 def gates(stats, tier):
